@@ -7,6 +7,7 @@ import (
 	"hash/crc32"
 	"os"
 	"path/filepath"
+	"runtime/debug"
 	"strings"
 	"testing"
 	"time"
@@ -105,16 +106,16 @@ func useJournal(feeds []*gtfs.Realtime) int {
 // useStatic walks a static result; a cyclic parent chain is reported instead of calling Root() on it.
 func useStatic(s *gtfs.Static) (int, error) {
 	n := 0
-	for i := range s.Stops {
-		cur, steps := &s.Stops[i], 0
-		for cur.Parent != nil {
-			cur = cur.Parent
-			steps++
-			if steps > len(s.Stops) {
-				return n, vt.FailSig("stop-parent-cycle", "Stops[%d] (%q): cyclic parent chain, Root() would never return", i, s.Stops[i].Id)
-			}
-		}
-		if s.Stops[i].Root() != cur {
+	roots, err := stopRoots(s) // bounded, memoised walk: a cycle is reported instead of letting Root() spin
+	if err != nil {
+		return n, err
+	}
+	step := 1
+	if len(s.Stops) > 3000 {
+		step = len(s.Stops) / 1500 // Root() walks the whole chain: sample very large hierarchies
+	}
+	for i := 0; i < len(s.Stops); i += step {
+		if s.Stops[i].Root() != roots[i] {
 			return n, vt.Failf("Stops[%d].Root() disagrees with the parent walk", i)
 		}
 		n++
@@ -376,6 +377,41 @@ func TestC05Realtime(t *testing.T) {
 	rapid.Check(t, func(t *rapid.T) {
 		c := CaseC05RT{Ext: rapid.IntRange(0, 28).Draw(t, "ext"), Zone: rapid.SampledFrom(c05Zones).Draw(t, "zone")}
 		n := rapid.IntRange(1, 3).Draw(t, "nFeeds")
+		if rapid.IntRange(0, 2).Draw(t, "evolving") == 0 {
+			// a history: 2-5 snapshots of ONE message whose trip updates evolve (stops dropped at the front, added at the back,
+			// replaced, emptied) - what the journal aligns against what it already holds
+			m := genHostileMsg(t)
+			c.Feeds = append(c.Feeds, m.Marshal())
+			for k := rapid.IntRange(1, 4).Draw(t, "nSnapshots"); k > 0; k-- {
+				m = cloneVia(m)
+				if m.Timestamp != nil {
+					*m.Timestamp += uint64(rapid.IntRange(0, 60).Draw(t, "dt"))
+				}
+				for ei := range m.Entities {
+					tu := m.Entities[ei].TU
+					if tu == nil {
+						continue
+					}
+					switch rapid.IntRange(0, 5).Draw(t, "evolve") {
+					case 0: // unchanged
+					case 1, 2: // passed some stops, maybe new ones at the back
+						tu.STUs = tu.STUs[min(len(tu.STUs), rapid.IntRange(0, 2).Draw(t, "passed")):]
+						for a := rapid.IntRange(0, 2).Draw(t, "appended"); a > 0; a-- {
+							tu.STUs = append(tu.STUs, rgen.GenSTU(t))
+						}
+					case 3:
+						tu.STUs = append(tu.STUs, rgen.GenSTU(t))
+					case 4:
+						tu.STUs = nil
+					default: // the trip is not in this snapshot
+						m.Entities[ei].TU = nil
+						m.Entities[ei].AL = &rgen.Alert{}
+					}
+				}
+				c.Feeds = append(c.Feeds, m.Marshal())
+			}
+			n = 0
+		}
 		for i := 0; i < n; i++ {
 			if rapid.IntRange(0, 5).Draw(t, "raw") == 0 {
 				c.Feeds = append(c.Feeds, rapid.SliceOfN(rapid.Byte(), 0, 60).Draw(t, "rawBytes"))
@@ -385,6 +421,7 @@ func TestC05Realtime(t *testing.T) {
 				c.Feeds = append(c.Feeds, mutateBytes(t, genHostileMsg(t).Marshal()))
 			}
 		}
+		vt.SaveCurrent(c05RTRec, c)
 		parsed, acc, err := c05RunRT(c)
 		c05RTRec.Eval(fmt.Sprintf("ext-class=%s", map[bool]string{true: "none", false: map[bool]string{true: "nycttrips", false: "nyctalerts"}[c.Ext <= 4]}[c.Ext == 0]), fmt.Sprintf("parsed=%d", parsed))
 		if parsed > 0 && acc > 0 {
@@ -546,7 +583,13 @@ func TestC05Static(t *testing.T) {
 				}
 			}
 		}
+		vt.SaveCurrent(c05StaticRec, c)
 		ok, acc, err := c05RunStatic(c05BuildArchive(c), c.Inherit)
+		if c.Lie != nil {
+			// whatever a parser allocated on the strength of a declared size is returned before the next case, so that a
+			// case that ends the process is the one that asked for too much, not the one after several that asked for a lot
+			debug.FreeOSMemory()
+		}
 		c05StaticRec.Eval(map[int]string{0: "mode=raw-archive", 6: "mode=lying-zip-header"}[mode]+map[bool]string{true: "", false: "mode=member-replaced"}[mode == 0 || mode == 6], fmt.Sprintf("accepted=%v", ok))
 		if ok && acc > 0 {
 			c05StaticRec.NontrivialCase(vt.Fingerprint(c), func() any {
@@ -580,6 +623,7 @@ func TestC05StaticTables(t *testing.T) {
 		}
 		p, _ := sgen.GenPresentation(t, mts)
 		c := CaseStaticTables{Tables: mts, Pres: p, Inherit: rapid.Bool().Draw(t, "inherit"), Labels: labels}
+		vt.SaveCurrent(c05TablesRec, c)
 		ok, acc, err := c05RunStatic(sgen.Render(c.Tables, c.Pres), c.Inherit)
 		sizeCls := ""
 		if len(labels) > 0 && (strings.HasPrefix(labels[len(labels)-1], "long-group-") || strings.HasPrefix(labels[len(labels)-1], "inflated-")) {
@@ -703,4 +747,95 @@ func c05BaseMembers() map[string][]byte {
 		out[ts[i].Name] = sgen.RenderCSV(&ts[i], sgen.FilePres{})
 	}
 	return out
+}
+
+// TestC05Large: archives far beyond ordinary sizes - 100000 rows per file, one group of 70000 rows, parent chains and parent
+// CYCLES through 70001 stops, one cell of 1 MiB, a member of 8 MiB - and realtime messages of 100000 hostile entities. The
+// result is walked as in the other C05 tests. Every kind runs in every tier.
+func TestC05Large(t *testing.T) {
+	for _, kind := range []string{"inflated-100000", "long-group-70000", "parent-cycle-70001", "parent-chain-70001", "cell-1MiB", "member-8MiB", "realtime-100000"} {
+		kind := kind
+		t.Run(kind, func(outer *testing.T) {
+			fail := ""
+			defer func() {
+				if fail != "" {
+					outer.Fatalf("%s", fail)
+				}
+			}()
+			rapid.Check(outer, func(t *rapid.T) {
+				var ok bool
+				var acc int
+				var err error
+				var saved any
+				if kind == "realtime-100000" {
+					m := genHostileMsg(t)
+					base := len(m.Entities)
+					for i := 0; base > 0 && len(m.Entities) < 100000; i++ {
+						e := m.Entities[i%base]
+						e.ID = fmt.Sprintf("%s~%d", e.ID, i)
+						m.Entities = append(m.Entities, e)
+					}
+					c := CaseC05RT{Ext: rapid.IntRange(0, 28).Draw(t, "ext"), Zone: rapid.SampledFrom(c05Zones).Draw(t, "zone"), Feeds: [][]byte{m.Marshal()}}
+					var parsed int
+					parsed, acc, err = c05RunRT(c)
+					ok, saved = parsed > 0, c
+				} else {
+					o := sgen.DefaultGenOpts()
+					o.MinTrips, o.MinStopTimes = 1, 1
+					f, _ := sgen.GenFeed(t, o)
+					ts, labels := sgen.Mutate(t, f.Tables(), rapid.IntRange(0, 4).Draw(t, "nEdits"), false)
+					st := ts.Get("stops.txt")
+					switch kind {
+					case "inflated-100000":
+						ts = sgen.Inflate(ts, 100000)
+					case "long-group-70000":
+						ts = sgen.LongGroup(ts, 70000)
+					case "parent-cycle-70001", "parent-chain-70001":
+						if ic, pc := st.Col("stop_id"), st.Col("parent_station"); ic >= 0 && pc >= 0 && len(st.Rows) > 0 {
+							tmpl := st.Rows[0]
+							for i := 0; i < 70001; i++ {
+								row := append([]string(nil), tmpl...)
+								row[ic], row[pc] = fmt.Sprintf("ring%d", i), fmt.Sprintf("ring%d", (i+1)%70001)
+								if kind == "parent-chain-70001" && i == 70000 {
+									row[pc] = ""
+								}
+								st.Rows = append(st.Rows, row)
+							}
+						}
+					case "cell-1MiB":
+						if nc := st.Col("stop_name"); nc >= 0 && len(st.Rows) > 0 {
+							st.Rows[len(st.Rows)/2][nc] = strings.Repeat("long stop name ", 70000)
+						}
+					case "member-8MiB":
+						if dc := st.Col("stop_desc"); dc >= 0 && len(st.Rows) > 0 {
+							tmpl := st.Rows[0]
+							for i := 0; i < 8000; i++ {
+								row := append([]string(nil), tmpl...)
+								row[st.Col("stop_id")] = fmt.Sprintf("big%d", i)
+								row[dc] = strings.Repeat("d", 1000)
+								st.Rows = append(st.Rows, row)
+							}
+						}
+					}
+					c := CaseStaticTables{Tables: ts, Pres: sgen.Canonical(), Inherit: rapid.Bool().Draw(t, "inherit"), Labels: append(labels, kind)}
+					ok, acc, err = c05RunStatic(sgen.Render(c.Tables, c.Pres), c.Inherit)
+					saved = c
+				}
+				c05TablesRec.Eval("large:"+kind, fmt.Sprintf("accepted=%v", ok))
+				if ok && acc > 0 {
+					c05TablesRec.NontrivialCase(vt.Fingerprint([]any{kind, acc}), func() any { return map[string]any{"kind": kind, "accessor_calls": acc} })
+				}
+				var msg string
+				switch c := saved.(type) {
+				case CaseC05RT:
+					msg = vt.Try(c05RTRec, c, func(CaseC05RT) error { return err })
+				case CaseStaticTables:
+					msg = vt.Try(c05TablesRec, c, func(CaseStaticTables) error { return err })
+				}
+				if msg != "" && fail == "" {
+					fail = msg
+				}
+			})
+		})
+	}
 }
